@@ -33,6 +33,8 @@ def same(a, b, tol=0.0):
         close = (a == b) | (np.abs(a - b) <= tol * np.maximum(1.0, np.maximum(np.abs(a), np.abs(b))))
     return bool(np.all(both_nan | (close & ~np.isnan(a) & ~np.isnan(b))))
 
+EXPECT_NO_EXCEPTION = True
+
 def verdict(violated, detail=""):
     if violated:
         print("REPRODUCED", detail); sys.exit(1)
@@ -74,9 +76,11 @@ def write_replay(prop, name, body):
     path = os.path.join(d, f"{safe}_{h}.py")
     with open(path, "w") as f:
         f.write(HEADER.format(prop=prop, name=name))
-        f.write("\n")
-        f.write(body)
-        f.write("\n")
+        f.write("\ndef main():\n")
+        for line in body.splitlines():
+            f.write("    " + line + "\n")
+        f.write("\ntry:\n    main()\nexcept SystemExit:\n    raise\nexcept Exception as ex:\n"
+                "    if EXPECT_NO_EXCEPTION:\n        verdict(True, 'raised %s: %s' % (type(ex).__name__, ex))\n    raise\n")
     return path
 
 
